@@ -187,7 +187,7 @@ impl Property for C08 {
     }
     fn strategy(&self, tier: Tier) -> BoxedStrategy<Case> {
         let dp = DicParams::small();
-        let w = (world(dp, CfgParams::full()), vec(pieces(tier.pick(10, 30)), 1..=3)).prop_map(|((dic, cfg), texts)| Case::World { dic, cfg, texts });
+        let w = (world(dp, CfgParams::full()), vec(pieces_long(tier.pick(10, 30)), 1..=3)).prop_map(|((dic, cfg), texts)| Case::World { dic, cfg, texts });
         let edit = (any::<u16>(), any::<u16>(), edit_string(), 0u8..4).prop_map(|(skip, len, with, api)| Edit { skip, len, with, api });
         let e = (vec(pool_char(), 1..=tier.pick(24, 40)).prop_map(|v| v.into_iter().collect::<String>()), vec(vec(edit, 1..=6), 1..=4))
             .prop_map(|(original, batches)| Case::Edits { original, batches });
